@@ -89,8 +89,18 @@ pub fn make_token(r: &mut Rng, claims: &Value, marks: &[TPath], bound: bool, use
         let mut tok = ref_issue(r, claims, marks, &opts);
         let mut clear = claims.clone();
         if bound {
-            tok.payload = with_member(tok.payload, "cnf", crate::keys::rsa_jwk());
-            clear = with_member(clear, "cnf", crate::keys::rsa_jwk());
+            // the holder key as other issuers write it: often with alg / use / kid members. They describe the
+            // key; which algorithm the holder signs with and which one the verifier expects is not taken from them
+            let mut jwk = crate::keys::rsa_jwk();
+            if r.chance(1, 2) {
+                jwk["alg"] = json!(*r.pick(&["RS256", "RS384", "RS512", "PS256", "PS512"]));
+                jwk["use"] = json!("sig");
+                if r.chance(1, 2) {
+                    jwk["kid"] = json!("holder-key-1");
+                }
+            }
+            tok.payload = with_member(tok.payload, "cnf", jwk.clone());
+            clear = with_member(clear, "cnf", jwk);
         }
         let jwt = sign_hs256(&tok.payload);
         let mut ds: Vec<String> = tok.discs.iter().map(|d| d.string.clone()).collect();
